@@ -38,7 +38,12 @@ theorem C09_disconnect_on_peer_close {s : S} (h : Reachable s) (hq : Quiescent s
   have h1 := gd.od_le
   have hi := quiescent_idle s hq
   have hi3 := quiescent_idle3 s hq
-  simp only [S.odSum, S.pendingD, S.lockedTasks] at *
+  have e1 : (if s.hPc = 5 then 1 else 0) = 0 := by simp [hi3.2.1]
+  have e2 : (if s.hPc = 10 then 1 else 0) = 0 := by simp [hi3.2.2]
+  have e3 : (if (2 ≤ s.hPc ∧ s.hPc ≤ 4) ∨ (7 ≤ s.hPc ∧ s.hPc ≤ 9) then 1 else 0) = 0 := by simp [hi3.1]
+  simp only [S.odSum, S.pendingD, e1, e2, e3] at hr h1
+  have hl := hi.1
+  simp only [S.lockedTasks] at hl
   omega
 
 /-- the close callbacks come last: once the callback list has started no OnConnect, OnRequest handler or task-side
